@@ -15,11 +15,13 @@ Lemma walk_sent_cplan p s b s' ev h m c : walk s p b = (s', ev) -> In (Sent h m 
   c = CPlan /\ m = MOrig (msg_cl s) /\ pool_of s h = PHealthy.
 Proof.
   intros W Hin. apply walk_walked in W.
-  destruct W as [sk h0 rest Hp Hsk Hh Hplan Hcons Hev Hatt Hexc Harm | Hsk Hplan Hcons Hev Hatt Hexc Harm];
+  destruct W as [sk h0 rest Hp Hsk Hh Hplan Hcons Hev Hatt Hexc Harm | Hsk Hplan Hcons Hev Hatt Hexc Harm
+                | sk rest Hp Hne Hsk Hplan Hcons Hev Hatt Hel Hexc Harm];
     rewrite Hev in Hin.
   - apply in_app_iff in Hin. destruct Hin as [Hin|[Hin|[]]].
     + apply in_map_iff in Hin. destruct Hin as (y & Hy & _). discriminate.
     + inversion Hin; subst. auto.
+  - apply in_map_iff in Hin. destruct Hin as (y & Hy & _). discriminate.
   - apply in_map_iff in Hin. destruct Hin as (y & Hy & _). discriminate.
 Qed.
 
@@ -102,6 +104,7 @@ Proof.
   destruct (negb (spec_armed s)); [inversion H; subst; destruct Hin|].
   destruct (completed (set_spec s false (spec_left s))); [inversion H; subst; destruct Hin|].
   destruct (attempts (set_spec s false (spec_left s))); [inversion H; subst; destruct Hin|].
+  destruct (elapsed (set_spec s false (spec_left s))); [inversion H; subst; destruct Hin|].
   destruct (send_request (set_spec s false (spec_left s)) false) as [s1 ev1] eqn:W. inversion H; subst.
   unfold send_request in W. eapply walk_sent_planmsg; eauto.
 Qed.
@@ -231,6 +234,9 @@ Proof.
     destruct (negb (spec_armed s)); [inversion H; subst; qnorm; exact Hin|].
     destruct (completed (set_spec s false (spec_left s))); [inversion H; subst; qnorm; exact Hin|].
     destruct (attempts (set_spec s false (spec_left s))); [inversion H; subst; qnorm; exact Hin|].
+    destruct (elapsed (set_spec s false (spec_left s))).
+    { inversion H; subst. destruct (on_timeout_same (set_spec s false (spec_left s))) as [[_ F]|[_ E]];
+        [rewrite (sbo_queue _ _ F) in Hin|rewrite E in Hin]; exact Hin. }
     destruct (send_request (set_spec s false (spec_left s)) false) as [s1 ev1] eqn:W. inversion H; subst.
     apply send_request_queue in W. unfold start_timer in Hin.
     destruct (spec_armed s1); [|destruct (0 <? spec_left s1)]; cbn in Hin; rewrite W in Hin; exact Hin.
